@@ -1,6 +1,6 @@
 (* Proofs about the GENERATED model of filenames.get_new_file_name (Gen/Files.v). *)
 From Coq Require Import ZArith List String Ascii Bool Lia FinFun.
-From BV Require Import Model.PyBase Proofs.PyBaseP Gen.Files.
+From BV Require Import Model.PyBase Model.FsOps Proofs.PyBaseP Proofs.FsOpsP Gen.Files.
 Open Scope Z_scope.
 
 (* The k-th candidate name: name.ext, name~00.ext, name~01.ext, ... *)
@@ -59,34 +59,12 @@ Section Loop.
   Qed.
 End Loop.
 
-(* Pigeonhole: among the first |fs|+1 candidates one is not in the directory; take the least. *)
+(* Pigeonhole, generic (Proofs/FsOpsP.v: least_free_gen): among the first |fs|+1 candidates one is
+   not in the directory; take the least. *)
 Lemma least_free fs name ext :
   exists m, (m <= List.length fs)%nat /\ ~ In (cand name ext m) fs /\
             forall j, (j < m)%nat -> In (cand name ext j) fs.
-Proof.
-  assert (H : exists m, (m <= List.length fs)%nat /\ ~ In (cand name ext m) fs).
-  { destruct (Forall_Exists_dec (fun k => In (cand name ext k) fs)
-               (fun k => in_dec string_dec (cand name ext k) fs) (seq 0 (S (List.length fs)))) as [Hall|Hex].
-    - exfalso.
-      assert (Hnd : NoDup (map (cand name ext) (seq 0 (S (List.length fs))))).
-      { apply FinFun.Injective_map_NoDup; [|apply seq_NoDup]. intros i j. apply cand_inj. }
-      assert (Hincl : incl (map (cand name ext) (seq 0 (S (List.length fs)))) fs).
-      { intros x Hx. apply in_map_iff in Hx. destruct Hx as (k & <- & Hk).
-        rewrite Forall_forall in Hall. apply Hall. exact Hk. }
-      pose proof (NoDup_incl_length Hnd Hincl) as Hl.
-      rewrite map_length, seq_length in Hl. lia.
-    - apply Exists_exists in Hex. destruct Hex as (k & Hk & Hn).
-      apply in_seq in Hk. exists k. split; [lia|exact Hn]. }
-  destruct H as (m0 & Hm0 & Hout0).
-  (* least such m, by strong induction *)
-  revert Hm0 Hout0. induction m0 as [m0 IH] using lt_wf_ind. intros Hm0 Hout0.
-  destruct (Forall_Exists_dec (fun k => In (cand name ext k) fs)
-             (fun k => in_dec string_dec (cand name ext k) fs) (seq 0 m0)) as [Hall|Hex].
-  - exists m0. split; [exact Hm0|]. split; [exact Hout0|].
-    intros j Hj. rewrite Forall_forall in Hall. apply Hall. apply in_seq. lia.
-  - apply Exists_exists in Hex. destruct Hex as (k & Hk & Hn). apply in_seq in Hk.
-    apply (IH k); [lia|lia|exact Hn].
-Qed.
+Proof. apply least_free_gen. intros i j. apply cand_inj. Qed.
 
 (* T14a: for every directory content, base name and extension, get_new_file_name terminates
    within |fs|+1 iterations and returns a name that is not in the directory; the name is the
@@ -110,25 +88,11 @@ Qed.
 
 (* ------------------------------------------------------------------------------------ *)
 (* Histories of output generation in one directory.
-   A directory = association list name -> content.  [fs_write] is open(name,'w'): it
-   REPLACES the content of an existing name (so nothing below is true by construction of
-   the file-system model); every writer of results / reports obtains its name from
-   get_new_file_name first. *)
-Definition dir := list (string * string).
-Definition names (d : dir) : list string := map fst d.
-
-Fixpoint fs_write (d : dir) (n c : string) : dir :=
-  match d with
-  | [] => [(n, c)]
-  | (n', c') :: r => if String.eqb n n' then (n', c) :: r else (n', c') :: fs_write r n c
-  end.
-
-Fixpoint lookup (d : dir) (n : string) : option string :=
-  match d with
-  | [] => None
-  | (n', c') :: r => if String.eqb n n' then Some c' else lookup r n
-  end.
-
+   A directory = association list name -> content (Model/FsOps.v).  [fs_write] is
+   open(name,'w'): it REPLACES the content of an existing name (so nothing below is true by
+   construction of the file-system model); every writer of results / reports / data dumps
+   obtains its name from get_new_file_name first (checked on the source on every run by the
+   writer scan of lib/props/C14.py). *)
 (* one output operation: (base name, extension, content) *)
 Definition write_fresh (d : dir) (op : string * string * string) : option dir :=
   let '(base, ext, content) := op in
@@ -142,32 +106,6 @@ Fixpoint run_history (d : dir) (ops : list (string * string * string)) : option 
   | [] => Some d
   | op :: r => match write_fresh d op with Some d' => run_history d' r | None => None end
   end.
-
-Lemma lookup_In d n c : lookup d n = Some c -> In n (names d).
-Proof.
-  induction d as [|[n' c'] r IH]; simpl; [discriminate|].
-  destruct (String.eqb n n') eqn:E; intros H.
-  - apply String.eqb_eq in E. left. congruence.
-  - right. apply IH. exact H.
-Qed.
-
-Lemma lookup_fs_write_other d n c n0 :
-  n0 <> n -> lookup (fs_write d n c) n0 = lookup d n0.
-Proof.
-  intros Hne. induction d as [|[n' c'] r IH]; simpl.
-  - destruct (String.eqb n0 n) eqn:E; [apply String.eqb_eq in E; congruence|reflexivity].
-  - destruct (String.eqb n n') eqn:E; simpl.
-    + apply String.eqb_eq in E. subst n'.
-      destruct (String.eqb n0 n) eqn:E2; [apply String.eqb_eq in E2; congruence|reflexivity].
-    + destruct (String.eqb n0 n'); [reflexivity|exact IH].
-Qed.
-
-Lemma lookup_fs_write_same d n c : lookup (fs_write d n c) n = Some c.
-Proof.
-  induction d as [|[n' c'] r IH]; simpl.
-  - rewrite String.eqb_refl. reflexivity.
-  - destruct (String.eqb n n') eqn:E; simpl; rewrite E; [reflexivity|exact IH].
-Qed.
 
 Lemma write_fresh_total d op : exists d', write_fresh d op = Some d'.
 Proof.
